@@ -962,6 +962,10 @@ class Node:
         origin_host = getattr(msg, "origin_host", None)
         if not isinstance(origin_host, bytes):
             origin_host = None
+        else:
+            # a DiameterIdentity: the same host whatever the case it is spelled
+            # in (folded as bytes, i.e. ASCII letters only)
+            origin_host = origin_host.lower()
 
         if msg.header.is_request:
             # Record who originally sent a request, as this information is lost
